@@ -21,7 +21,8 @@ RULE = ("case = golden test or generated program (cpu spans z80 / 68000 / 8051 /
         "word-granular target, or radix != 16; distinct by (program, feature set, radix, share format)")
 ASSUMPTIONS = [
     "hook ASL_VERIF_TRACE reports exactly what WriteBytes hands to the code file (checked against the code file)",
-    "a listing word may be the little- or big-endian image of the code file's bytes (no per-CPU endianness table); "
+    "a listing word may be the little- or big-endian image of the code file's bytes (no per-CPU endianness table), but "
+    "all lines of one CPU must agree on the order (checked for generated programs and for golden tests that name exactly one CPU); "
     "one of the two must match",
     "listing lines are matched by (line number, address, bytes); lines hidden by LISTING OFF / MACEXP settings are "
     "not required to appear - completeness is required for generated programs only: every plain code-emitting "
@@ -54,8 +55,14 @@ def strategy_(d, tier):
         items = []
         for _ in range(d.int(2, 12)):
             k = d.weighted([(5, "data"), (3, "ins"), (2, "lab"), (2, "mac"), (1, "inc"), (2, "phase"), (1, "seg"),
-                            (1, "res"), (1, "org"), (2, "macx"), (1, "mexp"), (1, "lst")])
-            if k == "data":
+                            (1, "res"), (1, "org"), (2, "macx"), (1, "mexp"), (1, "lst"), (3, "wdata")])
+            if k == "wdata":
+                # 16/32-bit data: the listing shows words, whose byte order must be the target's on every line;
+                # counts reach beyond the 512 byte code buffer of the code file writer
+                items.append(["wdata", d.weighted([(4, d.int(1, 6)), (2, d.int(7, 40)), (2, d.int(120, 300)),
+                                                   (1, d.choice([255, 256, 257, 127, 128, 129]))]),
+                              d.int(0x0102, 0xfeef), d.bool(0.3), d.bool(0.4)])
+            elif k == "data":
                 items.append(["data", d.weighted([(4, d.int(1, 6)), (3, d.int(7, 20)), (2, d.int(21, 40))]), d.int(0, 255)])
             elif k == "phase":
                 items.append(["phase", d.int(0, 0x3000)])
@@ -86,6 +93,7 @@ def render(case):
     feats = set()
     nlab = [0]
     listing = [True]
+    cpu_of_line = {}
 
     def add(line, code=False):
         L.append(line)
@@ -125,6 +133,27 @@ def render(case):
                     feats.add("continuation")
                 if phased:
                     feats.add("phased")
+            elif k == "wdata":
+                n, v0, longs, rep = it[1], it[2], it[3], it[4]
+                if v0 & 0xff == v0 >> 8:
+                    v0 ^= 1                      # both byte orders must be distinguishable
+                if cpu == "68000":
+                    op = "dc.l" if longs else "dc.w"
+                    v = (v0 << 16 | (v0 ^ 0x5a5a)) if longs else v0
+                    text = "[%d]%d" % (n, v) if rep else ",".join(str((v + 257 * i) & (0xffffffff if longs else 0xffff))
+                                                                  for i in range(min(n, 40)))
+                elif cpu == "16c84":
+                    op, text = "data", ",".join(str((v0 + 3 * i) & 0x3fff) for i in range(min(n, 12)))
+                else:
+                    op = "dd" if longs else "dw"
+                    v = (v0 << 16 | (v0 ^ 0x5a5a)) if longs else v0
+                    text = ",".join(str((v + 257 * i) & (0xffffffff if longs else 0xffff)) for i in range(min(n, 40)))
+                if inseg == "code":
+                    add("%s:\t%s %s" % (lab(), op, text), code=True)
+                    cpu_of_line[len(L)] = cpu
+                    feats.add("wdata")
+                    if rep and cpu == "68000" and n * (4 if longs else 2) >= 512:
+                        feats.add("line>=512bytes")
             elif k == "ins":
                 if inseg == "code":
                     add("\tnop", code=True)
@@ -182,11 +211,12 @@ def render(case):
         if cpu == "68000":
             add("\tdc.b 1", code=True)
             add("%s:\tdc.w 4660" % lab(), code=True)
+            cpu_of_line[len(L)] = cpu
             feats.add("padding")
     add("\tlisting on")
     for i in range(0, len(labels), 6):
         add("\tshared %s" % ",".join(labels[i:i + 6]))
-    return "\n".join(L) + "\n", "\n".join(inc) + "\n", labels, feats, must
+    return "\n".join(L) + "\n", "\n".join(inc) + "\n", labels, feats, must, cpu_of_line
 
 
 # ------------------------------------------------------------------ the oracle
@@ -198,7 +228,7 @@ def bytes_of(units, order):
     return bytes(out)
 
 
-def verify(lst_text, map_text, share_text, trace_text, pbytes, radix, complete, labels=None):
+def verify(lst_text, map_text, share_text, trace_text, pbytes, radix, complete, labels=None, cpu_of_line=None):
     """returns (error string or None, stats dict)"""
     st = dict(entries=0, matched=0, mapentries=0, syms=0, multi=0)
     trace = lstparse.parse_trace(trace_text)
@@ -228,6 +258,7 @@ def verify(lst_text, map_text, share_text, trace_text, pbytes, radix, complete, 
     for t in codes:
         by_line.setdefault(t["line"], []).append(t)
     used = set()
+    orient = {}
     for e in entries:
         if not e["units"] or e["retracted"]:
             continue
@@ -247,6 +278,17 @@ def verify(lst_text, map_text, share_text, trace_text, pbytes, radix, complete, 
                     % (e["line"], e["addr"], be.hex(), near or "nothing")), st
         used.add(id(hit))
         st["matched"] += 1
+        # the byte order of listed words is a property of the target: every line of one CPU uses the same one
+        if cpu_of_line is not None and le != be and e["depth"] == 0:
+            cpu = cpu_of_line if isinstance(cpu_of_line, str) else cpu_of_line.get(e["line"])
+            if cpu is not None:
+                o = "little" if hit["data"] == le else "big"
+                prev = orient.setdefault(cpu, (o, e["line"]))
+                st["oriented"] = st.get("oriented", 0) + 1
+                if prev[0] != o:
+                    return ("listing line %d shows its words in %s-endian order, line %d of the same CPU (%s) in "
+                            "%s-endian order; the code file holds %s" % (e["line"], o, prev[1], cpu, prev[0],
+                                                                         hit["data"][:8].hex())), st
     if complete:
         for t in codes:
             if id(t) not in used and os.path.basename(t["file"]) == "t.asm" and t["line"] in complete:
@@ -313,6 +355,24 @@ def verify(lst_text, map_text, share_text, trace_text, pbytes, radix, complete, 
     return None, st
 
 
+_single = {}
+
+
+def single_cpu(name):
+    """the CPU of a golden test whose sources name exactly one (then every listed line belongs to it), else None"""
+    if name not in _single:
+        t = corpus.load(name)
+        texts = [t["src"]] + [v for k, v in t["extra"].items() if k.lower().endswith((".inc", ".asm", ".mac"))]
+        found = set()
+        for b in texts:
+            for m in re.finditer(rb"^[^;\n]*?\bcpu[ \t]+([^\s;]+)", b, re.I | re.M):
+                found.add(m.group(1).upper())
+        # sources that switch the byte order themselves are left alone
+        flip = any(re.search(rb"\b(bigendian|wrapmode)\b", b, re.I) for b in texts)
+        _single[name] = found.pop().decode("latin-1") if len(found) == 1 and not flip else None
+    return _single[name]
+
+
 def execute(case):
     radix, share = case["radix"], case["share"]
     sopt, sext = SHARE[share]
@@ -330,8 +390,9 @@ def execute(case):
             sh = run.read(d, name + ".h")
             labels, feats, complete = None, set(), None
             ident = name
+            cpu_of_line = single_cpu(name)
         else:
-            src, inc, labels, feats, must = render(case)
+            src, inc, labels, feats, must, cpu_of_line = render(case)
             r = asl.assemble({"t.asm": src, "inc1.inc": inc}, args=args, env=env, workdir=d,
                              want=("t.lst", "t.map", "t" + sext))
             if r.timed_out:
@@ -349,7 +410,8 @@ def execute(case):
         return engine.bad("golden test %s fails with report options: status %s" % (ident, status), None, classes,
                           stderr=err[-500:])
     why, st = verify(lst.decode("latin-1"), mp.decode("latin-1") if mp else None,
-                     sh.decode("latin-1") if sh else None, trace.decode("latin-1"), p, radix, complete, labels)
+                     sh.decode("latin-1") if sh else None, trace.decode("latin-1"), p, radix, complete, labels,
+                     cpu_of_line)
     nt = bool(feats) or radix != 16 or st["multi"] > 0
     key = "|".join([ident, ",".join(sorted(feats)), str(radix), share]) if nt else None
     classes += ["entries>0"] if st["entries"] else ["no-entries"]
